@@ -75,7 +75,7 @@ PROPS = {
                 "or two binds, stabilise called from a node function and from a handler; every history ends by dropping every handle and the state; "
                 "both build profiles; non-trivial = distinct history in which node functions ran or a panic was produced",
                 builds=("debug", "release"), require_wf=False, nq=200),
-    "C12": spec(["IncrVerif.Props.C12", "IncrVerif.Props.C12History"], [("memo", 0.3), ("bind", 0.25), ("general", 0.2), ("perkey", 0.15), ("expert", 0.1)],
+    "C12": spec(["IncrVerif.Props.C12", "IncrVerif.Props.C12History", "IncrVerif.Props.C12Full"], [("memo", 0.3), ("bind", 0.25), ("general", 0.2), ("perkey", 0.15), ("expert", 0.1)],
                 ["api", "snap", "read"],
                 GEN + "every history of these profiles also drops handles (drophandle on top-level results incl. memoised nodes, dropobs, dropvar) and "
                 "profiles memo/maps/perkey/limits end with dropping EVERY handle and the state; both sides list the nodes still allocated after every "
